@@ -186,6 +186,10 @@ def run(ctx):
         if rc == "compile-failed":
             ctx.count("sanitizer_build_failed")
             continue
+        if rc == -6 and "AddressSanitizer" not in err and "runtime error:" not in err and "DynArray: Index out of bounds" in err:
+            # the runtime's own bounds check stopped the program: a defined fault of a partial operation, outside the property's runs
+            ctx.count("ended_in_defined_bounds_fault")
+            continue
         if "AddressSanitizer" in err or "runtime error:" in err or (isinstance(rc, int) and rc < 0) or rc in ("run-timeout",):
             oracle_fail.append({"why": "sanitizer report / crash in a natively compiled accepted program", "exit": rc, "stderr": err[-800:], "source": src})
         else:
